@@ -530,3 +530,21 @@ REG.unit(Unit(
     props=["C05", "C14"], ghost_init=ghost_live,
     canaries=[("never-pushes", "ghost('n_event_put') == 0")],
 )).obligation_props = []
+
+
+# ---------------------------------------------------------------------------------------------------- ClientID equality (C05, C13)
+# The registry model above (storage.clients: connection -> subscriptions, a WeakKeyDictionary keyed by the ClientID object) identifies
+# a connection with its ClientID OBJECT.  That is right as long as two distinct ClientID objects never compare equal; the class
+# defines __hash__ only, so equality is object identity.  Stated as a contract on the (absent) __eq__; verified if one appears.
+PU = "nostr_relay/util.py"
+REG.classes["ClientID"] = {"_idstr": V.Str, "__frozen__": ("_idstr",)}
+REG.globals.setdefault("NotImplemented", Conc("NotImplemented"))
+clientid_eq = REG.unit(Unit(
+    PU, "ClientID.__eq__",
+    Contract("ClientID.__eq__", {"self": V.ObjT("ClientID"), "other": V.ObjT("ClientID")},
+             # `self` and `other` are two DISTINCT objects here (separate heap cells)
+             ensures=[("distinct-connections-never-compare-equal", "not (result is True)")], raises={}),
+    props=["C05", "C13"],
+    canaries=[("never-returns", "False")],
+))
+clientid_eq.absent_ok = ("identity-equality", "ClientID defines no __eq__: object.__eq__ compares identities, so two connections are never the same registry key")
